@@ -10,9 +10,9 @@ RULE = ("for every joint degree sequence in the box and every motif configuratio
         "real random_clustered_graph, on 6 construction paths (fast/network/custom x direct/factory); build "
         "callbacks are wrapped in recorders; non-trivial = instance with >= 2 distinct arrangements")
 BOUNDS = {
-    "quick": "N 1..4 vertices; entries 0..2 (t<=2 topologies/orbits); 9 fast/network configs, 10 custom configs; "
+    "quick": "N 1..4 vertices; entries 0..2 (t<=2 topologies/orbits); 9 fast/network configs, 11 custom configs; "
              "instances with more than 700 distinct arrangements are skipped and counted",
-    "thorough": "N 1..5; entries 0..3 (t=1), 0..2 (t=2,3); 12 fast + 12 custom configs; cap 60000 arrangements",
+    "thorough": "N 1..5; entries 0..3 (t=1), 0..2 (t=2,3); 12 fast + 13 custom configs; cap 60000 arrangements",
 }
 ASSUMPTIONS = ["equal stub values give identical executions, so distinct multiset arrangements (weighted by "
                "multiplicity) cover all n! permutations exactly",
